@@ -10,7 +10,7 @@ import re
 from .. import cfgx
 from ..build import AnalysisBroken
 
-UNITS = ['base/QXmppSasl.cpp', 'client/QXmppSaslManager.cpp']
+UNITS = ['base/QXmppSasl.cpp', 'client/QXmppSaslManager.cpp', 'client/QXmppConfiguration.cpp']
 SCRAM = 'QXmppSaslClientScram::respond'
 DIGEST = 'QXmppSaslClientDigestMd5::respond'
 CRYPTO = ('QPasswordDigestor::deriveKeyPbkdf2', 'QMessageAuthenticationCode::hash', 'QCryptographicHash::hash')
@@ -107,6 +107,7 @@ def run(prog, run):
     managers(prog, run)
     roles(prog, run)
     arg_chains(prog, run)
+    verbatim_credentials(prog, run)
 
 
 # --------------------------------------------------------------------------- SCRAM
@@ -358,13 +359,14 @@ def managers(prog, run):
         evs = []
 
         cases = (('no data and the mechanism has not verified the server (early <success/>)', hostile(False, None, False)),
-                 ('data that the mechanism rejects (wrong server signature)', hostile(True, False, None)))
+                 ('data that the mechanism rejects (wrong server signature)', hostile(True, False, None)),
+                 ('data the mechanism accepts as an intermediate step without having completed (the server signature is still outstanding)', hostile(True, True, False)))
         for k, (label, evc) in enumerate(cases):
             run.instance(r3)
             res = cfgx.sink_reachability(fn, evc, succ_sites, track=evs[k])
             bad = [x for x in succ_sites if res[x] is not None]
             if bad:
-                which = 'success-without-mechanism-check' if label.startswith('no data') else 'success-data-not-verified'
+                which = 'success-without-mechanism-check' if label.startswith('no data') else 'success-data-not-verified' if 'rejects' in label else 'success-mechanism-incomplete'
                 run.violation(r3, '%s#%s' % (qn, which), fn.loc(bad[0]),
                               'authentication is reported successful for a <success/> carrying %s: the server never proved knowledge of the password'
                               % label, cfgx.describe_path(fn, res[bad[0]]))
@@ -621,3 +623,79 @@ def arg_chains(prog, run):
         return
     run.instance(rid)
     run.ok(rid, 'src/base/QXmppSasl.cpp', 'no chained arg() over run-time text in %d SASL functions (control in controls/c06_controls.cpp is reported)' % n)
+
+
+# --------------------------------------------------------------------------- R6: configured credentials reach the mechanism verbatim
+_SPLITTERS = ('QXmppUtils::jidToUser', 'QXmppUtils::jidToDomain', 'QXmppUtils::jidToResource', 'QXmppUtils::jidToBareJid', 'std::move', 'std::forward', 'std::as_const')
+
+
+def _returned_field(g):
+    """the member a plain getter returns"""
+    fs = set()
+    for r, n in g.returns():
+        if 'e' not in n:
+            return None
+        m = g.nodes[g.skip(n['e'])]
+        if m['k'] != 'mem':
+            return None
+        fs.add(m['f'])
+    return fs.pop() if len(fs) == 1 else None
+
+
+def verbatim_credentials(prog, run):
+    rid = run.rule('C06.R6', 'the user name, host and secrets the mechanisms compute their responses from are the configured ones, byte for byte: every write of the configuration members '
+                             'that are handed to the SASL client (setUsername / setHost / setCredentials) stores its argument, or a part split off it, without any conversion '
+                             '(no case folding, trimming, normalisation)', floor=4)
+    # the configuration members handed to the mechanism
+    fields = {}
+    for f in prog.fns.values():
+        if f.entry is None or not f.file.endswith('QXmppSaslManager.cpp'):
+            continue
+        for i, n in f.calls():
+            s = f.sym(n) or {}
+            if s.get('record') != 'QXmppSaslClient' or not (s.get('name') or '').startswith('set') or not n.get('args'):
+                continue
+            for j in f.walk(n['args'][0]):
+                m = f.nodes[j]
+                if m['k'] == 'call' and (f.sym(m) or {}).get('record') == 'QXmppConfiguration':
+                    for g in prog.callee_fns(f, m):
+                        fld = _returned_field(g) if g.entry is not None else None
+                        if fld:
+                            fields[fld] = '%s(config.%s())' % (s['name'], g.name)
+                        elif g.entry is not None and 'Credentials' in (g.raw.get('ret') or (f.sym(m) or {}).get('ret') or ''):
+                            rec = prog.record('QXmpp::Private::Credentials', required=False)
+                            for fl in (rec or {}).get('fields', []):
+                                if 'QString' in (fl.get('t') or ''):
+                                    fields[fl.get('qname') or 'QXmpp::Private::Credentials::' + fl['name']] = '%s(config.%s().%s)' % (s['name'], g.name, fl['name'])
+    if len(fields) < 3:
+        raise AnalysisBroken('C06.R6: configuration members handed to the SASL client not found (%s)' % sorted(fields))
+    run.extra['credential_members'] = fields
+    nw = 0
+    for f in prog.fns.values():
+        if f.entry is None or '/src/client/' not in f.file and '/src/base/' not in f.file:
+            continue
+        sites = [(i, n['l'], n['r']) for i, n in f.all_nodes('assign') if n.get('op') == '='] + \
+                [(i, n['opargs'][0], n['opargs'][1]) for i, n in f.calls() if n.get('op') == '=' and len(n.get('opargs', [])) == 2]
+        for i, l, r in sites:
+            ln = f.nodes[f.skip(l)]
+            if ln['k'] != 'mem' or ln.get('f') not in fields:
+                continue
+            nw += 1
+            run.instance(rid)
+            conv = None
+            for j in f.walk(r):
+                m = f.nodes[j]
+                if m['k'] == 'call' and not m.get('op') and f.cname(m) not in _SPLITTERS:
+                    conv = j
+                    break
+                if m['k'] == 'call' and m.get('op') in ('+', '+='):
+                    conv = j
+                    break
+            if conv is not None:
+                run.violation(rid, '%s#converted:%s' % (f.outer_name(), ln['name']), f.loc(i),
+                              '%s stores %s after a conversion (%s); this member is what the mechanism gets through %s, so responses, hashes and the authentication identity are '
+                              'computed for other bytes than the configured ones' % (f.display()[:50], ln['name'], f.fmt(conv, inline=False)[:60], fields[ln['f']]))
+            else:
+                run.ok(rid, f.loc(i), '%s stored verbatim (%s)' % (ln['name'], f.fmt(r)[:50]))
+    if nw < 4:
+        raise AnalysisBroken('C06.R6: only %d writes of the credential members found' % nw)
